@@ -167,11 +167,11 @@ def borrowed_locals(f, is_iter_type):
                 m = f.stmts[x]
                 if m["k"] == "CXXOperatorCallExpr" and m.get("op") in ("*", "->") and m.get("args"):
                     a = f.stmts.get(f.strip(m["args"][0]))
-                    if a is not None and is_iter_type(a.get("type") or a.get("declType") or a.get("fieldType") or ""):
+                    if a is not None and is_iter_type(a.get("t") or a.get("declType") or a.get("fieldType") or ""):
                         hit = True
                         break
-                if m["k"] in ("CallExpr", "CXXMemberCallExpr", "CXXConstructExpr") and "Token" not in (m.get("type") or "") \
-                        and not (m.get("type") or "").rstrip().endswith("&"):
+                if m["k"] in ("CallExpr", "CXXMemberCallExpr", "CXXConstructExpr") and "Token" not in (m.get("t") or "") \
+                        and not (m.get("t") or "").rstrip().endswith("&"):
                     # a call that returns by value: the reference binds a temporary, not the token
                     pass
             if hit:
@@ -179,7 +179,7 @@ def borrowed_locals(f, is_iter_type):
                 top = f.stmts.get(f.strip(d["init"]))
                 if top is not None and top["k"] in ("CallExpr", "CXXMemberCallExpr", "CXXConstructExpr", "CXXTemporaryObjectExpr",
                                                     "MaterializeTemporaryExpr", "CXXBindTemporaryExpr", "CXXFunctionalCastExpr"):
-                    tt = (top.get("type") or "")
+                    tt = (top.get("t") or "")
                     if not tt.rstrip().endswith("&") and top["k"] != "CXXMemberCallExpr":
                         continue
                 out.append((d["declId"], d.get("name"), s))
